@@ -171,3 +171,24 @@ pub fn c02_l0_labeled_kdf_real() {
     kani::cover!(sl == 8 && il == 3 && nl == 3, "longest inputs");
     kani::cover!(sl == 0 && il == 0 && nl == 0, "all empty");
 }
+
+//@h name=c02_l2_receiver_base_real tier=thorough mode=func timeout=5400 desc="UN-stubbed anchor at the composition level: the whole Base-mode setup_receiver (decap + key schedule) through the REAL hkdf and hmac crates over the model hash equals the RFC 9180 reference (ties the stub layer's contract to the real crates end to end; 1.2 M symbolic-execution steps)" bounds="all skR, enc; info 0..=1 B; model suite; unwind 20"
+#[kani::proof]
+#[kani::unwind(20)]
+#[kani::stub(zeroize::optimization_barrier, noop_barrier)]
+pub fn c02_l2_receiver_base_real() {
+    let sk_r: u16 = kani::any();
+    let enc: u16 = kani::any();
+    let info: [u8; 1] = kani::any();
+    let il = any_len(1);
+    let res = setup_receiver::<SpyAead16, LinKdf, ToyKemLin>(&OpModeR::Base, &XorPrivateKey(sk_r), &enc_from(enc), &info[..il]);
+    match (res, rfc::decap::<G8, LinHash>(KEM_ID, enc, sk_r, None)) {
+        (Ok(ctx), Some(ss)) => {
+            let suite = rfc::full_suite_id(KEM_ID, KDF_ID, AEAD_ID);
+            let sched = rfc::key_schedule::<LinHash>(0, ss.as_slice(), &info[..il], &[], &[], &suite, 16, 12);
+            assert_schedule!(ctx, sched);
+        }
+        (Err(e), None) => assert!(e == HpkeError::DecapError),
+        _ => assert!(false, "setup_receiver success/failure differs from RFC 9180"),
+    }
+}
